@@ -123,6 +123,7 @@ fn decode(tapes: &Tapes) -> Scenario {
     let rerun = m.chance(110);
     let mut t = Tape::new(&tapes.a);
     let mut dom = Domain::general();
+    dom.no_prefix_clash = false;
     dom.max_docs = 1;
     dom.max_nodes = 20;
     let case = decode_case(&mut t, &dom);
